@@ -597,6 +597,14 @@ class _SchemaAttributes:
     assumed = "DataSchemaBuilder.attributes returns the collected attributes (C03); only passed on to the constructors here"
 
 
+def _extent_given(r, mode, delimited):
+    if smt() and r.fields is not None and r.cls.name != "DelimitedType":
+        return NOT(delimited)  # a result that is not a delimited type has no declared extent
+    if not smt() and type(r).__name__ != "DelimitedType":
+        return not delimited
+    return IMPLIES(delimited, lambda: AS(r, DELIMITED)._extent == AS(VAL(mode), DMODE).extent)
+
+
 @contract(DTB + "._make_composite", props=P)
 class _MakeComposite:
     """exactly one of @sealed / @extent per schema: a schema without serialization mode is rejected; @extent wraps the
@@ -622,9 +630,145 @@ class _MakeComposite:
         r = s.result
         return {
             "delimited-iff-extent-given": IFF(ISINST(r, "DelimitedType"), delimited),
-            "extent-is-the-given-one": IMPLIES(delimited, lambda: AS(r, DELIMITED)._extent == AS(VAL(mode), DMODE).extent),
+            "extent-is-the-given-one": _extent_given(r, mode, delimited),
             # (for a delimited result the wrapped type is not visible through the contract of DelimitedType.__init__ in
             # specs/c02.py, which does not state that `inner` is stored)
             "union-iff-marked": IMPLIES(NOT(delimited), IFF(s.builder._is_union, ISINST(r, "UnionType"))),
             "never-a-service": NOT(ISINST(r, "ServiceType")),
         }
+
+
+# ================================================================================================ native harness
+from pyvc.native import NativeSuite  # noqa: E402
+
+NATIVE = NativeSuite()
+NATIVE_BUDGET = {"quick": 300, "thorough": 3000}
+_NAMES = ["", "a", "_", "__", "_a_", "abc", "Abc0", "0abc", "a-b", "a b", "true", "TRUE", "tRuE", "truex", "void", "void1", "Void32",
+          "int", "uint8", "UINT64", "q16_8", "uq1_32", "Q1_1", "q_1", "float", "float16", "floaty", "com1", "COM9", "com10",
+          "lpt0", "lpt", "con", "prn", "aux", "nul", "self", "and", "or", "not", "auto", "type", "optional", "aligned",
+          "const", "struct", "super", "template", "enum", "saturated", "truncated", "bool", "false", "K", "aK",
+          "Kelvin", "tasK", "İ", "aİ", "é", "Σ", "aΣ", "Ａ", "١", "a١", "x1",
+          "_x", "x_", "a.b", "a\n", "int\n", "ſ", "Ⅰ"]
+
+
+def _gen_name(rng, i):
+    if i < len(_NAMES):
+        return {"name": _NAMES[i]}
+    alphabet = "aAzZ09_kK-. Kİé"
+    return {"name": "".join(rng.choice(alphabet) for _ in range(rng.choice([1, 1, 2, 3, 5])))}
+
+
+def _build_check_name(desc):
+    from pydsdl._serializable._name import check_name
+
+    return (lambda: check_name(desc["name"])), {"name": desc["name"]}
+
+
+def _mk_simple_type(k):
+    from pydsdl import _serializable as S
+
+    cm = S.PrimitiveType.CastMode.SATURATED
+    return {"void": lambda: S.VoidType(8), "u8": lambda: S.UnsignedIntegerType(8, cm), "bool": S.BooleanType,
+            "byte": S.ByteType, "utf8": S.UTF8Type,
+            "arr": lambda: S.FixedLengthArrayType(S.UnsignedIntegerType(8, cm), 2),
+            "varr-utf8": lambda: S.VariableLengthArrayType(S.UTF8Type(), 4),
+            "arr-byte": lambda: S.FixedLengthArrayType(S.ByteType(), 4)}[k]()
+
+
+def _gen_attr(rng, i):
+    return {"type": rng.choice(["void", "u8", "bool", "arr"]), "name": rng.choice(_NAMES)}
+
+
+def _build_attr(cls):
+    def build(desc):
+        from pydsdl import _serializable as S
+
+        t = _mk_simple_type(desc["type"])
+        return (lambda: getattr(S, cls)(t, desc["name"])), {"data_type": t, "name": desc["name"], "doc": ""}
+
+    return build
+
+
+def _gen_width(rng, i):
+    return {"n": rng.choice([-1, 0, 1, 2, 3, 8, 63, 64, 65, 128]), "cast": rng.choice(["s", "t"])}
+
+
+def _build_signed(desc):
+    from pydsdl import _serializable as S
+
+    cm = S.PrimitiveType.CastMode.SATURATED if desc["cast"] == "s" else S.PrimitiveType.CastMode.TRUNCATED
+    return (lambda: S.SignedIntegerType(desc["n"], cm)), {"bit_length": desc["n"], "cast_mode": cm}
+
+
+def _build_void(desc):
+    from pydsdl import _serializable as S
+
+    return (lambda: S.VoidType(desc["n"])), {"bit_length": desc["n"]}
+
+
+def _gen_agg(rng, i):
+    return {"elem": rng.choice(["void", "u8", "bool", "byte", "utf8", "arr", "varr-utf8", "arr-byte", "dep", "dep-arr", "delim-dep"]),
+            "agg": rng.choice(["struct", "union", "struct-dep", "delim", "arr", "varr", "svc"])}
+
+
+def _build_agg(desc):
+    from pathlib import Path
+    from pydsdl import _serializable as S
+
+    u8 = S.UnsignedIntegerType(8, S.PrimitiveType.CastMode.SATURATED)
+
+    def comp(cls, name, dep, hps=False):
+        attrs = [S.Field(u8, "a"), S.Field(u8, "b")]
+        return cls(name=name, version=S.Version(1, 0), attributes=attrs, deprecated=dep, fixed_port_id=None,
+                   source_file_path=Path("ns/%s.1.0.dsdl" % name.split(".")[1]), has_parent_service=hps)
+
+    def elem(k):
+        if k == "dep":
+            return comp(S.StructureType, "ns.Dep", True)
+        if k == "dep-arr":
+            return S.FixedLengthArrayType(comp(S.StructureType, "ns.Dep", True), 2)
+        if k == "delim-dep":
+            return S.DelimitedType(comp(S.StructureType, "ns.Dep", True), 64)
+        return _mk_simple_type(k)
+
+    def agg(k):
+        if k == "struct":
+            return comp(S.StructureType, "ns.Agg", False)
+        if k == "struct-dep":
+            return comp(S.StructureType, "ns.Agg", True)
+        if k == "union":
+            return comp(S.UnionType, "ns.Agg", False)
+        if k == "delim":
+            return S.DelimitedType(comp(S.StructureType, "ns.Agg", False), 64)
+        if k == "arr":
+            return S.FixedLengthArrayType(u8, 3)
+        if k == "varr":
+            return S.VariableLengthArrayType(u8, 3)
+        return S.ServiceType(comp(S.StructureType, "ns.Svc.Request", False, True),
+                             comp(S.StructureType, "ns.Svc.Response", False, True), None)
+
+    t, a = elem(desc["elem"]), agg(desc["agg"])
+    return (lambda: t._check_aggregation(a)), {"self": t, "aggregate": a}
+
+
+def _gen_reg(rng, i):
+    return {"id": rng.choice([0, 255, 256, 383, 384, 511, 512, 6143, 6144, 7167, 7168, 8191, 8192]),
+            "ns": rng.choice(["uavcan", "cyphal", " uavcan ", "vendor", "Uavcan", ""])}
+
+
+def _build_reg(fn):
+    def build(desc):
+        from pydsdl import _port_id_ranges as R
+
+        return (lambda: getattr(R, fn)(desc["id"], desc["ns"])), {"regulated_id": desc["id"], "root_namespace": desc["ns"]}
+
+    return build
+
+
+NATIVE.add("pydsdl._serializable._name.check_name", _gen_name, _build_check_name)
+NATIVE.add(ATTRIBUTE + ".__init__", _gen_attr, _build_attr("Field"))
+NATIVE.add(SIGNED_T + ".__init__", _gen_width, _build_signed)
+NATIVE.add(VOID_T + ".__init__", _gen_width, _build_void)
+NATIVE.add(SERIALIZABLE + "._check_aggregation@dynamic", _gen_agg, _build_agg)
+NATIVE.add(PIR + "is_valid_regulated_subject_id", _gen_reg, _build_reg("is_valid_regulated_subject_id"))
+NATIVE.add(PIR + "is_valid_regulated_service_id", _gen_reg, _build_reg("is_valid_regulated_service_id"))
